@@ -48,7 +48,8 @@ OptionsReasons(r) ==
     [] r.f \in {"parse", "parse_help"} ->
          LET p == Shapes[r.s].p IN
          IF ~ArgvOK(r) THEN {"HARNESS-unknown-token"}
-         ELSE IF ~WellFormed(p) THEN {"HARNESS-parse-of-ill-formed-definition"}
+         ELSE IF ~WellFormed(p) THEN {}   \* the verdict is the ctor record ("ill-formed-definition-accepted");
+                                          \* what such a parser then parses is not specified
          ELSE IF r.f = "parse_help" /\ ~Shapes[r.s].help THEN {"HARNESS-help-precondition"}
          ELSE ResultReasons(r, IF r.f = "parse" THEN Parse(p, r.a) ELSE ParseHelp(p, r.a), p)
     [] OTHER -> {"HARNESS-unknown-record-kind"}
